@@ -60,6 +60,10 @@ pub struct Cfg {
     pub ttl: Option<u64>,
     pub max_memory: Option<usize>,
     pub fw: Option<f64>,
+    /// async only: the history keeps the clock on whole seconds, so the whole-second age the
+    /// async engine measures *is* the exact age (TLRU's remaining-lifetime fraction is then a
+    /// point, not an interval)
+    pub age_exact: bool,
 }
 impl Cfg {
     pub fn describe(&self) -> String {
@@ -227,7 +231,7 @@ fn score(cfg: &Cfg, e: &Ent, cands: &[&Ent], now: i64) -> (f64, f64) {
                     let t = t as f64;
                     let age = (now - e.born) as f64 / SEC as f64;
                     let rem = |a: f64| (1.0 - (a / t)).clamp(0.0, 1.0);
-                    if cfg.flavour == Flavour::Async {
+                    if cfg.flavour == Flavour::Async && !cfg.age_exact {
                         let lo_age = (age - 1.0).max(0.0);
                         let hi_age = age + 1.0;
                         (f * rank * rem(hi_age), f * rank * rem(lo_age))
@@ -457,7 +461,7 @@ pub fn fmt_state(s: &State) -> String {
 mod tests {
     use super::*;
     fn cfg(p: Policy, limit: Option<usize>) -> Cfg {
-        Cfg { flavour: Flavour::Global, policy: p, limit, ttl: None, max_memory: None, fw: None }
+        Cfg { flavour: Flavour::Global, policy: p, limit, ttl: None, max_memory: None, fw: None, age_exact: false }
     }
     #[test]
     fn fifo_evicts_oldest() {
